@@ -492,3 +492,58 @@ Definition set_policy (s : state) (c : nat) (k : pkind) (m : metric) (size : N) 
 
 Definition on_handle (s : state) (h : nat) (f : backend -> backend) : state :=
   if (h <? length (s_heap s))%nat then with_heap s (hset (s_heap s) h (f (hget (s_heap s) h))) else s.
+
+(* ------------------------------------------------------------------ *)
+(** * Histories: the operations of the correspondence driver *)
+
+Inductive op :=
+| OHash (a h1 h2 : N)
+| OScore (k a : N) (w : option Z) (bits : N)
+| OAdd (c : nat) (id a : N) (sticky : option N) (w : option Z) (backup : bool)
+| ORemove (c : nat) (a : N)
+| OPolicy (c : nat) (k : pkind) (m : metric) (size : N)
+| OClosing (h : nat)
+| OHealth (c : nat) (a : N) (ok : bool) (thr : N)
+| OHealthReset (c : nat)
+| OFail (h : nat) (w : N)
+| OSucceed (h : nat)
+| OForce (h : nat) (t w : N)
+| OAdvance (d : N)
+| OInc (h : nat)
+| ODec (h : nat)
+| OClose (c : nat) (a : N)
+| OReqs (h : nat) (n : N)
+| OSelect (c : nat) (key : option N).
+
+Definition apply_op (s : state) (o : op) : state :=
+  match o with
+  | OHash a h1 h2 => mkS (s_heap s) (s_cl s) (s_now s) ((a, (h1, h2)) :: s_hashes s) (s_scores s)
+  | OScore k a w bits => mkS (s_heap s) (s_cl s) (s_now s) (s_hashes s) (((k, a, w), bits) :: s_scores s)
+  | OAdd c id a sticky w backup => fst (add_backend s c (backend_new id a sticky w backup (s_now s)))
+  | ORemove c a => fst (remove_backend s c a)
+  | OPolicy c k m size => set_policy s c k m size
+  | OClosing h => on_handle s h (fun b => set_status b Closing)
+  | OHealth c a ok thr =>
+    match find_backend s c a with
+    | Some h =>
+      on_handle s h (fun b => fst (if ok then record_success b thr else record_failure b thr))
+    | None => s
+    end
+  | OHealthReset c =>
+    fold_left (fun s0 h => on_handle s0 h (fun b => set_health b true 0 0)) (c_list (cget s c)) s
+  | OFail h w => on_handle s h (fun b => set_retry b (retry_fail (b_retry b) (s_now s) w))
+  | OSucceed h => on_handle s h (fun b => set_retry b (retry_succeed (b_retry b) (s_now s)))
+  | OForce h t w => on_handle s h (fun b => set_retry b (mkR t (r_max (b_retry b)) (s_now s) w))
+  | OAdvance d => mkS (s_heap s) (s_cl s) (s_now s + d) (s_hashes s) (s_scores s)
+  | OInc h => on_handle s h (fun b => fst (inc_connections b))
+  | ODec h => on_handle s h (fun b => fst (dec_connections b))
+  | OClose c a =>
+    match find_backend s c a with
+    | Some h => on_handle s h (fun b => fst (dec_connections b))
+    | None => s
+    end
+  | OReqs h n => on_handle s h (fun b => set_reqs b n)
+  | OSelect c key => fst (select s c key)
+  end.
+
+Definition run_ops (s : state) (ops : list op) : state := fold_left apply_op ops s.
